@@ -81,6 +81,10 @@ def instr_to_text(ins):
         if ins[2] is None:
             return "backward %d 0" % ins[1]
         return "backward %d 1 %s %s" % (ins[1], _us(ins[2][0]), _fs(ins[2][1]))
+    if n == "backwardh":
+        # the seed is (a clone of) an existing variable; its dimensions and values, known to the generator,
+        # are carried along for the model, which takes seeds by value
+        return "backwardh %d %d" % (ins[1], ins[2])
     if n == "index":
         return "index %d %s" % (ins[1], _us(ins[2]))
     if n == "indexflat":
@@ -223,6 +227,8 @@ def instr_to_coq(ins, tangent=None, dual=False):
         if ins[2] is None:
             return "IBackward %s None" % _cn(ins[1])
         return "IBackward %s (Some (%s, %s))" % (_cn(ins[1]), _cns(ins[2][0]), _cfs(ins[2][1]))
+    if n == "backwardh":
+        return "IBackward %s (Some (%s, %s))" % (_cn(ins[1]), _cns(ins[3]), _cfs(ins[4]))
     if n == "index":
         return "IIndex %s %s" % (_cn(ins[1]), _cns(ins[2]))
     if n == "indexflat":
